@@ -279,7 +279,7 @@ fn parse_txt_payload(payload: &str) -> Result<Vec<ScionIpAddr>, TxtParseError> {
     }
 
     let mut addresses = Vec::new();
-    while !remaining.is_empty() {
+    loop {
         if !remaining.starts_with('[') {
             return Err(TxtParseError::ExpectedOpenBracket(remaining.to_string()));
         }
